@@ -110,7 +110,7 @@ def explore_instance(job: dict) -> dict:
 
 
 def jobs_for(ctx: Ctx) -> list[dict]:
-    names = ["U1", "U2", "U3", "U4", "U4b", "U5", "U6", "U7", "U8", "U10", "U11", "U12", "U13", "U14", "U15", "U16"]
+    names = ["U1", "U2", "U3", "U4", "U4b", "U5", "U6", "U7", "U8", "U10", "U11", "U12", "U13", "U14", "U15", "U16", "U17"]
     jobs = []
     budget = 1200 if ctx.quick else 3000  # safety net only; bounds are the state caps
     deadline = time.time() + budget
